@@ -811,6 +811,18 @@ func (e *Env) call(n ECall) TVal {
 			return r
 		}
 		return e.errf("local needs an identifier")
+	case "allocated":
+		// allocated(x): the object x designates exists already (it was not allocated after this point)
+		if !argc(1) {
+			return TVal{}
+		}
+		{
+			a := e.tr(n.Args[0])
+			if e.st.allocTop.S == "" {
+				return TVal{T: Term{"true", SBool}}
+			}
+			return TVal{T: Term{app("<=", a.T.S, e.st.allocTop.S), SBool}}
+		}
 	case "pristine":
 		// pristine(v): v is an interface holding a pointer; what it points to is the zero value of its type
 		// (a decoder writes into it: nothing of an earlier use may be left)
